@@ -11,7 +11,7 @@ import random
 import signal
 from pyvc.run import task
 
-SEEDS = ['simple_gcc.elf.mips', 'arm_reloc_unrelocated.o', 'compressed_32.o', 'obj_stabs.elf', 'note_after_gnu_property',
+SEEDS = ['simple_gcc.elf.mips', 'arm_reloc_unrelocated.o', 'compressed_32.o', 'obj_stabs.elf', 'note_after_gnu_property/main.elf',
          'section_link_to_self.elf', 'trailing_null_dies.elf']
 
 
